@@ -46,7 +46,7 @@ ASSUMPTIONS = [
     "simulation adds is the schedule quantifier (sample index k <-> patch index k under every completion order)",
     "per-patch pair counts themselves are taken from the sequential run of the real kernels (C01 is not claimed)",
 ]
-PROBES = ["imap_completion_out_of_order", "landy_szalay", "davis_peebles", "nan_bins", "redshiftdata_with_auto", "redshiftdata_with_unk_auto", "exactly_zero_leave_one_out_normalisation", "identities_recycled", "wide_dynamic_range_weights", "resampled_after_set_patch_pair", "hundreds_of_patches"]
+PROBES = ["samples_with_large_common_value", "imap_completion_out_of_order", "landy_szalay", "davis_peebles", "nan_bins", "redshiftdata_with_auto", "redshiftdata_with_unk_auto", "exactly_zero_leave_one_out_normalisation", "identities_recycled", "wide_dynamic_range_weights", "resampled_after_set_patch_pair", "hundreds_of_patches"]
 REAL_VS_STUB = dict(
     real="yaw measurements, paircounts/corrfunc/corrdata/redshifts algebra, trees, numpy einsum",
     stub="multiprocessing.Pool (sim.fakemp), _num_processes; builtins.id during the repeat/churn stage (sim.identity: identities of released objects recycled in a recorded order)",
@@ -65,6 +65,7 @@ def gen_cases(tier: str, verif_seed: int, runs: int | None = None) -> list[dict]
         scene["wide"] = True
         if i % 4 == 1:
             scene["many"] = prng.choice([182, 200, 255, 300, 400])
+            scene["many_flat"] = prng.chance(1, 2)
         variants = []
         for j in range(nvar):
             variants.append(
@@ -158,7 +159,10 @@ def _workload(case: dict, paths: dict, max_workers, out: dict) -> None:
     out["hist"] = orc.sampled_state(hist)
     if "many" in paths:
         many = yaw.Catalog(paths["many"], **kw)
-        out["hist.many"] = orc.sampled_state(yaw.HistData.from_catalog(many, config, **kw))
+        hm = yaw.HistData.from_catalog(many, config, **kw)
+        out["hist.many"] = orc.sampled_state(hm)
+        out["hist.many.cov"] = dict(cov=np.array(hm.covariance), err=np.array(hm.error))
+        del hm
         if max_workers == 1:
             from yaw.redshifts import _redshift_histogram as _rh2
 
@@ -449,11 +453,16 @@ def evaluate(case: dict, ref: dict, got: dict, cache_ref: dict) -> tuple[dict | 
             )
     # (c'') hundreds of patches
     if "hist.many" in got and "hist.many.per_patch" in ref:
+        import math
+
         counts = ref["hist.many.per_patch"]
-        total = counts.sum(axis=0)
-        loo = total[np.newaxis, :] - counts  # dyadic weights: exact
+        npatch_, nb_ = counts.shape
+        total = np.array([math.fsum(counts[:, b]) for b in range(nb_)])
+        loo = np.array([[math.fsum(np.delete(counts[:, b], k)) for b in range(nb_)] for k in range(npatch_)])
         g = got["hist.many"]
         probes["hundreds_of_patches"] = 1
+        if scene.get("many_flat"):
+            probes["samples_with_large_common_value"] = 1
         if not orc.allclose_nan(g["data"], total, rtol=1e-12) or np.asarray(g["samples"]).shape != loo.shape or not orc.allclose_nan(g["samples"], loo, rtol=1e-12):
             bad = "shape" if np.asarray(g["samples"]).shape != loo.shape else "-"
             if bad == "-":
@@ -464,6 +473,10 @@ def evaluate(case: dict, ref: dict, got: dict, cache_ref: dict) -> tuple[dict | 
                 f"histogram of a catalog with {len(counts)} patches: samples differ from the leave-one-out sums (first bad sample: {bad})",
                 probes,
             )
+    if "hist.many.cov" in got:
+        msg = _cov_problems(got["hist.many"]["samples"], got["hist.many.cov"]["cov"], got["hist.many.cov"]["err"], "hist(many patches)")
+        if msg:
+            return sig("covariance", "covariance_wrong", patches="many"), msg, probes
     # (d) covariance
     for i, st in enumerate(got["cross.sample"]):
         msg = _cov_problems(st["samples"], got["cross.cov"][i]["cov"], got["cross.cov"][i]["err"], f"cross[{i}]")
